@@ -184,10 +184,110 @@ fn run_point(cfg: &RunCfg, i: usize, plan: Option<&FaultPlan>, out: &mut RunOut,
     Ok(po)
 }
 
+/// The same fault point through the async port: ops 0..i fault-free on a fresh async stack, then
+/// op i with the k-th call into a wrapped async filesystem failing. Ok(None): k is beyond the calls
+/// the operation makes (enumeration of this op is complete).
+fn run_point_async(cfg: &RunCfg, i: usize, k: u64, out: &mut RunOut, trace: bool) -> Result<Option<Option<(String, String, usize)>>, String> {
+    use crate::asyncsim::*;
+    let ab = abuild(&cfg.specs[0], crate::rng::mix(cfg.order_seed, 0), cfg.permute, crate::rng::mix(cfg.seed, 0xC20A), 20)?;
+    let shape = format!("{}/async", cfg.specs[0].shape());
+    let mut world = World { m: vec![cfg.specs[0].view()], w: Default::default() };
+    let mut ax = AExec { root: ab.root.clone(), slots: Default::default() };
+    let mut universe: std::collections::BTreeSet<String> = world.m[0].t.keys().cloned().collect();
+    for op in &cfg.ops {
+        for p in op.paths() {
+            if let Ok(c) = canon(&p.s) {
+                for a in ancestors(&c) {
+                    universe.insert(a);
+                }
+                universe.insert(c);
+            }
+        }
+    }
+    for (j, op) in cfg.ops.iter().enumerate().take(i + 1) {
+        let before = world.clone();
+        let want = world.apply(op);
+        for key in world.m[0].t.keys() {
+            universe.insert(key.clone());
+        }
+        if matches!(want, Want::Unspec) {
+            return Err("unspecified op".into());
+        }
+        let faulted = j == i;
+        ab.ctl.on.store(true, Ordering::SeqCst);
+        if faulted {
+            ab.ctl.calls.store(0, Ordering::SeqCst);
+            ab.ctl.faults_fired.store(0, Ordering::SeqCst);
+            ab.ctl.fail_at.store(k, Ordering::SeqCst);
+        }
+        let mut st = PollStats::default();
+        let got = ax.exec(op, &mut st);
+        ab.ctl.fail_at.store(0, Ordering::SeqCst);
+        ab.ctl.on.store(false, Ordering::SeqCst);
+        if trace {
+            out.trace.push(format!("  async [{}{}] {:?}\n      want {} got {}", j, if faulted { " FAULTED" } else { "" }, op, want_class(&want), short(&got)));
+        }
+        if !faulted {
+            if judge(&want, &got).is_some() {
+                return Err("async prefix deviates from the model (C15's business)".into());
+            }
+            continue;
+        }
+        if ab.ctl.faults_fired.load(Ordering::SeqCst) == 0 {
+            return Ok(None);
+        }
+        let tcl = op_tclass(&before, op);
+        let step = j + 1;
+        if let Res::Panic(m) = &got {
+            if m.starts_with("EXECUTOR:") {
+                return Ok(Some(Some((format!("C20|{}|{}|{}|no-progress-under-fault", shape, op.kind(), tcl), format!("async op {} {:?}: {}", j, op, m), step))));
+            }
+            return Ok(Some(Some((format!("C20|{}|{}|{}|panic", shape, op.kind(), tcl), format!("async op {} {:?} panicked under the injected failure: {}", j, op, m), step))));
+        }
+        let ok_claimed = match &got {
+            Res::Ok(Out::Session(steps)) => steps.iter().all(|s| s.is_ok()),
+            Res::Ok(Out::Walk(items)) => items.iter().all(|s| s.is_ok()),
+            Res::Ok(_) => true,
+            _ => false,
+        };
+        if ok_claimed {
+            let verdict = match &want {
+                Want::Ok(Some(v)) => match &got {
+                    Res::Ok(o) => value_matches(v, o).err().map(|d| ("wrong-value", d)),
+                    _ => None,
+                },
+                Want::Ok(None) => None,
+                Want::Err(_) => Some(("ok-where-failure-demanded", format!("the contract demands failure, got {}", short(&got)))),
+                Want::Unspec => None,
+            };
+            let snap = asnapshot(&ab, &universe)?;
+            let verdict = verdict.or_else(|| compare_snap(&world.m[0], &snap).map(|(p, field, d)| ("partial-effect", format!("'{}' {}: {}", p, field, d))));
+            if let Some((kk, d)) = verdict {
+                return Ok(Some(Some((format!("C20|{}|{}|{}|ok-with-{}", shape, op.kind(), tcl, kk), format!("async op {} {:?} reported success although call #{} into the underlying async filesystem failed: {}", j, op, k, d), step))));
+            }
+            out.count("probe.c20.async_ok_by_other_route");
+        } else {
+            out.count("probe.c20.async_error_reported");
+        }
+        return Ok(Some(None));
+    }
+    Ok(None)
+}
+
 pub fn run_c20(cfg: &RunCfg, trace: bool) -> RunOut {
     let mut out = RunOut::default();
     let shape: String = cfg.specs.iter().map(|s| s.shape()).collect::<Vec<_>>().join("+");
     let mut sig = crate::rng::hash_str(&shape);
+    // replay of a single async fault point
+    if let (Some(plan), Some(_)) = (&cfg.fault, cfg.extra.get("async_point")) {
+        match run_point_async(cfg, plan.op_index, plan.k, &mut out, trace) {
+            Ok(Some(Some((key, detail, step)))) => out.violations.push(Violation { property: "C20".into(), key, detail, step }),
+            Ok(_) => {}
+            Err(e) => out.trace.push(format!("async fault point not applicable: {}", e)),
+        }
+        out.steps = 1;
+        return out;
+    }
     // replay of a single fault point
     if let Some(plan) = &cfg.fault {
         match run_point(cfg, plan.op_index, Some(plan), &mut out, trace) {
@@ -245,6 +345,30 @@ pub fn run_c20(cfg: &RunCfg, trace: bool) -> RunOut {
                         }
                     }
                     Err(_) => {}
+                }
+            }
+        }
+    }
+    // the same enumeration through the async port (a quarter of the histories)
+    if out.violations.is_empty() && cfg.seed % 4 == 0 && !cfg.specs[0].has_phys() {
+        'aops: for i in 0..cfg.ops.len() {
+            for k in 1..=300u64 {
+                match run_point_async(cfg, i, k, &mut out, false) {
+                    Ok(None) => break,
+                    Ok(Some(v)) => {
+                        points += 1;
+                        out.steps += 1;
+                        out.add("fault.async_call_error", 1);
+                        if let Some((key, detail, step)) = v {
+                            out.violations.push(Violation { property: "C20".into(), key, detail, step });
+                            let mut single = cfg.clone();
+                            single.fault = Some(FaultPlan { op_index: i, k, sticky: false, kind: "Other".into(), nodes: u64::MAX });
+                            single.extra.insert("async_point".into(), "1".into());
+                            out.cfg_override = Some(serde_json::to_value(single).unwrap());
+                            break 'aops;
+                        }
+                    }
+                    Err(_) => break 'aops,
                 }
             }
         }
